@@ -149,3 +149,155 @@ Print Assumptions c14_dns_close_connection_without_out_queue_close_refuted.
 Print Assumptions c14_dns_sweep_without_out_queue_close_refuted.
 Print Assumptions c14_dns_client_close_without_out_queue_close_refuted.
 Print Assumptions c14_dns_out_queue_close_source_facts.
+
+(* ================================================================================================================================
+   Reclamation in the server's per-session handler and in the piping of one logical connection (Mux/Handler.v: every stream, target
+   connection, goroutine and report channel explicit; arbitrary schedule and environment). *)
+From SA Require Import Mux.Handler Mux.Handler_proofs.
+From SA Require Gen.HandlerShape.
+
+(* one obligation per switch the model takes from the source *)
+Theorem c14_handler_fact_terminal_accept_errors_return :
+  Gen.HandlerShape.accept_quiet_error_returns = true /\ Gen.HandlerShape.accept_other_error_returns = true /\
+  Gen.HandlerShape.accept_loop_continues = false /\ Gen.HandlerShape.accept_other_error_closes_session = true.
+Proof. repeat split; reflexivity. Qed.
+Theorem c14_handler_fact_report_channels_have_room : Gen.HandlerShape.pipe_cap_down = 1%N /\ Gen.HandlerShape.pipe_cap_up = 1%N.
+Proof. split; reflexivity. Qed.
+Theorem c14_handler_fact_pipe_closes :
+  Gen.HandlerShape.pipe_down_eof_closes = "up"%string /\ Gen.HandlerShape.pipe_down_err_closes = "down;up"%string /\
+  Gen.HandlerShape.pipe_up_eof_closes = "down"%string /\ Gen.HandlerShape.pipe_up_err_closes = "down;up"%string /\
+  Gen.HandlerShape.pipe_error_branches_return_error = true.
+Proof. repeat split; reflexivity. Qed.
+Theorem c14_handler_fact_stream_closed_on_every_path :
+  Gen.HandlerShape.mux_deferred_close_on_param = true /\ Gen.HandlerShape.accept_error_path_closes_own_param = true.
+Proof. split; reflexivity. Qed.
+Theorem c14_handler_fact_slot_given_back_on_every_path : Gen.HandlerShape.handler_slot_released_on_error_paths = true.
+Proof. reflexivity. Qed.
+Theorem c14_handler_fact_client_closes_both_ends : Gen.HandlerShape.listener_closes_both_at_end = true.
+Proof. reflexivity. Qed.
+Theorem c14_handler_fact_client_closes_refused_stream : Gen.HandlerShape.client_open_stream_closes_refused = true.
+Proof. reflexivity. Qed.
+Theorem c14_handler_source_facts : shape_ok code_shape = true.
+Proof. reflexivity. Qed.
+
+(* RECLAMATION, one logical connection. In every reachable state: if the connection is over (either side hung up or failed, the session
+   died or was closed, the dial failed - a refused connection is over when the client closes it, which it does: c14_client_reclaimed), no
+   dial of it is still in flight, and none of its goroutines can take a step any more, then its handler goroutine has returned, neither
+   copy loop is left (none is blocked on a report channel), its stream is closed, and its target connection is closed - or, while muxHandler
+   does not close it itself, is one whose target hung up first (c14_handler_target_left_only_after_target_eof). *)
+Theorem c14_handler_connection_reclaimed : forall sh evs i c, shape_ok sh = true ->
+  let s := run sh evs in
+  nth_error (g_conns s) i = Some c -> k_h c <> HNone -> ended s c = true -> dial_settled c = true -> conn_quiet sh s i = true ->
+  released sh c = true.
+Proof. exact conn_reclaimed_run. Qed.
+Theorem c14_handler_target_left_only_after_target_eof : forall sh c, released sh c = true -> target_held c = true ->
+  sh_mh_closes_up sh = false /\ t_eof (k_t c) = true.
+Proof. exact released_target. Qed.
+
+(* RECLAMATION, the session. After the session has died - in any manner, with any number of logical connections in any states - once no
+   dial is in flight and no goroutine can take a step, the accept loop has exited and nothing of the session is left: the footprint
+   (goroutines, streams held, target connections held and still of use) is zero, whatever the number of past connections. *)
+Theorem c14_handler_session_reclaimed : forall sh evs, shape_ok sh = true ->
+  let s := run sh evs in
+  g_dead s <> Alive -> quiet sh s = true -> forallb dial_settled (g_conns s) = true ->
+  g_acc s = AExited /\ (forall i c, nth_error (g_conns s) i = Some c -> k_h c <> HNone -> released sh c = true) /\ footprint s = 0.
+Proof. exact session_reclaimed_run. Qed.
+
+(* NO BUSY LOOP. A terminal accept error ends the loop with its next step, and a loop that has ended never takes another step. *)
+Theorem c14_handler_accept_exits : forall sh evs, shape_ok sh = true ->
+  let s := run sh evs in
+  g_acc s = AAccept -> g_dead s <> Alive \/ g_closed s = true ->
+  g_acc (step sh s (SAccept true)) = AExited /\ (first_pending (g_conns s) 0 = None -> g_acc (step sh s (SAccept false)) = AExited).
+Proof. exact accept_exits_run. Qed.
+Theorem c14_handler_no_busy_loop : forall sh s evs, g_acc s = AExited ->
+  g_acc (run_from sh s evs) = AExited /\ g_acc_steps (run_from sh s evs) = g_acc_steps s /\ forall b, step_opt sh (run_from sh s evs) (SAccept b) = None.
+Proof. exact no_busy_loop. Qed.
+(* ... in a quiescent state nothing moves until the environment acts *)
+Theorem c14_handler_quiescent_is_idle : forall sh s evs, quiet sh s = true -> forallb is_sched evs = true -> run_from sh s evs = s.
+Proof. exact quiet_stuck. Qed.
+
+(* RECLAMATION on the client (listener.HandleConnection for one local connection, ConnectDirectly included): when the connection is over,
+   nothing it asked for is in flight and its goroutines have taken their remaining steps, then - through the tunnel - the local connection
+   and the stream are both closed and no goroutine is left (a refused stream included); piped directly to a forward address no goroutine is
+   left and an end stays open only if it is the one whose peer hung up first. *)
+Theorem c14_client_reclaimed : forall sh f evs, shape_ok sh = true ->
+  let l := lrun sh (l_new f) evs in
+  l_ended l = true -> l_settled l = true -> l_quiet sh l = true -> (if l_direct l then l_released_direct l else l_released l) = true.
+Proof. exact client_reclaimed_run. Qed.
+
+(* (on the shape with muxHandler as it is today: the switch sh_mh_closes_up is the one the statements leave open) *)
+Example c14_handler_hypotheses_meet :
+  shape_ok intended = true /\
+  let evs := [EOpen; ESelect 0 true; EDial 0 true; EOpen; ESelect 1 true; EOpen; ESelect 2 false; EOpen; EOpen; ESelect 4 true; EDial 4 true; ETgEof 4;
+              EOpen; ESelect 5 true; EDial 5 false] in
+  let s := script intended evs in
+  map (fun c => goroutines_of c) (g_conns s) = [3; 1; 1; 1; 0; 0] /\ footprint s = 12 /\ target_left_to_gc (cn s 4) = true /\
+  released intended (cn s 4) = true /\ released intended (cn s 5) = true /\ conn_quiet intended s 4 = true /\ ended s (cn s 4) = true /\
+  let t := script intended (evs ++ [EDie false; EDial 1 true]) in
+  g_dead t = DeadErr /\ quiet intended t = true /\ forallb dial_settled (g_conns t) = true /\ footprint t = 0 /\ g_acc t = AExited /\
+  forallb (released intended) (g_conns t) = true /\ logged t AAcc RSess = true.
+Proof. vm_compute. repeat split. Qed.
+Example c14_client_hypotheses_meet :
+  let l := lsettle code_shape 20 (lstep code_shape (lsettle code_shape 20 (lrun code_shape (l_new false) [LConnFate true; LHand false; LAnswer true])) LUpEof) in
+  l_ended l = true /\ l_settled l = true /\ l_quiet code_shape l = true /\ l_direct l = false /\ l_released l = true /\ l_goroutines l = 0.
+Proof. vm_compute. repeat split. Qed.
+
+(* The defects this code has been the target of, each refuted on the variant that has it - and the same history on the code as it is. *)
+Theorem c14_handler_up_only_on_eof_refuted :
+  let s := script (variant DUpOnlyOnEof) cut_open_history in
+  reach (variant DUpOnlyOnEof) s /\ quiet (variant DUpOnlyOnEof) s = true /\ g_dead s = DeadErr /\ forallb dial_settled (g_conns s) = true /\
+  target_held (cn s 0) = true /\ cop_live (p_cu (k_p (cn s 0))) = true /\ released (variant DUpOnlyOnEof) (cn s 0) = false /\ footprint s = 2 /\
+  footprint (script intended cut_open_history) = 0.
+Proof. exact up_only_on_eof_refuted. Qed.
+Theorem c14_handler_unbuffered_refuted :
+  let s := script (variant DCap0) app_closes_history in
+  reach (variant DCap0) s /\ quiet (variant DCap0) s = true /\ ended s (cn s 0) = true /\ is_hdone (cn s 0) = true /\
+  p_cu (k_p (cn s 0)) = CSend false /\ goroutines_of (cn s 0) = 1 /\ released (variant DCap0) (cn s 0) = false /\
+  released intended (cn (script intended app_closes_history) 0) = true.
+Proof. exact unbuffered_refuted. Qed.
+Theorem c14_handler_continue_spins_refuted : forall n,
+  let s := run_from (variant DContinue) (step (variant DContinue) (g_new (variant DContinue)) (EDie false)) (repeat (SAccept true) n) in
+  g_acc s = AAccept /\ g_acc_steps s = n /\ enabled (variant DContinue) s (SAccept true) = true.
+Proof. exact continue_spins_refuted. Qed.
+Theorem c14_client_refused_left_open_refuted :
+  let l := lrun (variant DRefusedOpen) (l_new false) refused_client_history in
+  l_quiet (variant DRefusedOpen) l = true /\ l_ended l = true /\ l_settled l = true /\ l_pc l = LDone /\ e_ex (l_upc l) = true /\
+  e_closed (l_upc l) = false /\ l_released l = false /\ l_released (lrun intended (l_new false) refused_client_history) = true.
+Proof. exact refused_left_open_refuted. Qed.
+(* ... seen from the server: every refused stream the client leaves open keeps its handler goroutine and its stream for as long as the session lives *)
+Theorem c14_handler_refused_left_open_refuted :
+  let s := script intended (refused_server_history 3) in
+  reach intended s /\ quiet intended s = true /\ footprint s = 7 /\ count h_live (g_conns s) = 3 /\
+  (forall evs, forallb is_sched evs = true -> run_from intended s evs = s) /\
+  footprint (script intended (flat_map (fun i => [EOpen; ESelect i false; EAppClose i]) (seq 0 3))) = 1.
+Proof. exact refused_left_open_server_refuted. Qed.
+Theorem c14_client_wrong_side_refuted :
+  let l := lrun (variant DWrongSide) (l_new true) target_hangs_up_direct in
+  l_quiet (variant DWrongSide) l = true /\ l_ended l = true /\ l_settled l = true /\ l_pc l = LDone /\ l_direct l = true /\
+  e_closed (l_app l) = false /\ e_eof (l_app l) = false /\ p_cd (l_p l) = CRun /\ l_goroutines l = 1 /\ l_released_direct l = false /\
+  let g := lrun intended (l_new true) target_hangs_up_direct in
+  l_quiet intended g = true /\ e_closed (l_app g) = true /\ l_goroutines g = 0 /\ l_released_direct g = true.
+Proof. exact wrong_side_refuted. Qed.
+Theorem c14_handler_slot_leak_refuted :
+  let s := script (variant DSlotLeak) refusals_then_open in
+  reach (variant DSlotLeak) s /\ quiet (variant DSlotLeak) s = true /\ g_dead s = Alive /\ g_acc s = ASlot /\
+  first_pending (g_conns s) 0 = Some 2 /\ is_hdone (cn s 0) = true /\ is_hdone (cn s 1) = true /\
+  (forall evs, forallb is_sched evs = true -> run_from (variant DSlotLeak) s evs = s) /\
+  is_hpipe (cn (script intended refusals_then_open) 2) = true.
+Proof. exact slot_leak_refuted. Qed.
+
+Print Assumptions c14_handler_source_facts.
+Print Assumptions c14_handler_connection_reclaimed.
+Print Assumptions c14_handler_target_left_only_after_target_eof.
+Print Assumptions c14_handler_session_reclaimed.
+Print Assumptions c14_handler_accept_exits.
+Print Assumptions c14_handler_no_busy_loop.
+Print Assumptions c14_handler_quiescent_is_idle.
+Print Assumptions c14_client_reclaimed.
+Print Assumptions c14_handler_up_only_on_eof_refuted.
+Print Assumptions c14_handler_unbuffered_refuted.
+Print Assumptions c14_handler_continue_spins_refuted.
+Print Assumptions c14_client_refused_left_open_refuted.
+Print Assumptions c14_handler_refused_left_open_refuted.
+Print Assumptions c14_client_wrong_side_refuted.
+Print Assumptions c14_handler_slot_leak_refuted.
